@@ -116,6 +116,16 @@ func run(c *core.Ctx) {
 			}
 			addGroup(s, "reader", kind, "", nil, s.Witness, fmt.Sprintf("accept=%v", refAccept), fmt.Sprintf("accept=%v err=%v", implAccept, o.Err))
 		}
+		// the reader's other lawful ways of ending: io.EOF together with the last
+		// byte, and a read of no bytes before the last byte or before io.EOF
+		for _, cf := range envAnswers(e.Cfg, len(s.Witness)) {
+			o2 := m.Feed(mach.Bytewise(s.Witness), cf, false, false)
+			c.Eval()
+			c.Add("reader_answer_variants", 1)
+			if o2.Failed() != o.Failed() {
+				addGroup(s, "reader", "verdict-depends-on-"+envName(cf), "", nil, s.Witness, fmt.Sprintf("accept=%v err=%v", implAccept, o.Err), fmt.Sprintf("accept=%v err=%v panic=%v", !o2.Failed(), o2.Err, o2.Panic))
+			}
+		}
 	}
 	e.OnTrans = func(t *bytemc.Trans) {
 		if sub != 0 {
@@ -182,6 +192,7 @@ func run(c *core.Ctx) {
 			}
 			addGroup(s, "whole", kind, "", b, t.Input, fmt.Sprintf("accept=%v", refAccept), fmt.Sprintf("accept=%v err=%v panic=%v", implAccept, w.Err, w.Panic))
 		}
+		beyondInput(c, m, e.Cfg, t.Ref, t.Input, w, func(kind, exp, obs string) { addGroup(s, "whole", kind, "", b, t.Input, exp, obs) })
 	}
 	e.Run()
 	for _, h := range e.Harness {
@@ -267,12 +278,56 @@ func placement(c *core.Ctx, m *mach.M, e *bytemc.Explorer, sub int, addGroup fun
 						addGroup(s, entry, kind, "", nil, in, fmt.Sprintf("accept=%v", want), fmt.Sprintf("accept=%v err=%v", got, o.Err))
 					}
 				}
-				judge("whole", m.Whole(in, e.Cfg))
+				w := m.Whole(in, e.Cfg)
+				judge("whole", w)
+				beyondInput(c, m, e.Cfg, p, in, w, func(kind, exp, obs string) { addGroup(s, "whole", kind, "", nil, in, exp, obs) })
 				judge("reader", m.Feed([][]byte{in}, e.Cfg, false, false))
+				for _, cf := range envAnswers(e.Cfg, 1) {
+					judge("reader", m.Feed([][]byte{in}, cf, false, false))
+				}
 				for i := 1; i < len(in); i++ {
 					judge("reader", m.Feed([][]byte{in[:i], in[i:]}, e.Cfg, false, false))
+					for _, cf := range envAnswers(e.Cfg, 2) {
+						judge("reader", m.Feed([][]byte{in[:i], in[i:]}, cf, false, false))
+					}
 				}
 			}
+		}
+	}
+}
+
+// envAnswers lists the reader's lawful answers other than the default (data,
+// nil)* (0, io.EOF): io.EOF delivered with the last of n chunks, and one read
+// of no bytes (0, nil) before the last chunk or before io.EOF.
+func envAnswers(base mach.Config, n int) []mach.Config {
+	a, b, d := base, base, base
+	a.EOFWithLast = true
+	b.ZeroAt = n + 1
+	d.ZeroAt = n
+	return []mach.Config{a, b, d}
+}
+
+func envName(cf mach.Config) string {
+	if cf.EOFWithLast {
+		return "eof-with-last-byte"
+	}
+	return "empty-read"
+}
+
+// beyondInput runs the []byte entry point on the same input twice more: with
+// the most plausible continuation (the shortest valid completion, closers, an
+// 'e' run) stored right behind it in the slice's spare capacity, and with no
+// spare capacity at all. The answer must be the one for the plain slice.
+func beyondInput(c *core.Ctx, m *mach.M, cfg mach.Config, ref *jsonref.PDA, in []byte, plain *mach.Out, report func(kind, exp, obs string)) {
+	show := func(o *mach.Out) string {
+		return fmt.Sprintf("accept=%v err=%v panic=%v", !o.Failed(), o.Err, o.Panic)
+	}
+	comp, _ := bytemc.Complete(ref)
+	for i, o := range []*mach.Out{m.WholeSpare(in, mach.SpareFor(comp), cfg), m.WholeSpare(in, nil, cfg)} {
+		c.Eval()
+		c.Add("spare_capacity_runs", 1)
+		if show(o) != show(plain) {
+			report([]string{"reads-beyond-input:continuation-in-spare-capacity", "reads-beyond-input:no-spare-capacity"}[i], show(plain), show(o))
 		}
 	}
 }
